@@ -3,5 +3,5 @@ CONSTANTS
   Names = {"a", "b", "h", "U", "pi"}
   MaxStmts = 12
   MaxDepth = 5
-INVARIANTS ScopeDepthMatchesNesting BackToGlobal IdsDense MSatisfiesR EmitLong
+INVARIANTS ScopeDepthMatchesNesting BackToGlobal IdsDense MSatisfiesR_Long EmitLong
 CHECK_DEADLOCK FALSE
